@@ -12,9 +12,9 @@ CLAIMED = {
         text="Seeded load/store programs over several pointer registers are executed symbolically, then the environment reveals pointer values (equal, partially overlapping, adjacent, disjoint) and every loaded value (with its mods replayed by an independent interpreter) and the final memory are compared with a sequential bytearray execution. Known genuine defects are carved out by scenario predicates and replayed as witnesses.",
         note="trusts the bytearray model and the independent mods interpreter; carve-outs over-approximate the known defects' trigger regions and cost coverage there"),
     "C10": dict(engine="heapsim_isa", level="exploration", ref="3.3",
-        technique="deterministic simulation: interleaved analysis clients on one process image, isolation oracle against pristine forked reference worlds, heap write barrier for attribution",
-        text="Analysis clients (decode / build map / evaluate / re-evaluate / compose) of several ISAs are interleaved on one process image by a seeded scheduler; every constant observation must equal the observation made by a pristine forked process that executes only that observation's dependency chain, and old maps must keep their evaluations. Guided polluter x victim layer on top of the random interleavings.",
-        note="compares constants only; trusts fork() to give the post-import state; listed known write sites are undone at step end (carve-out), witnesses replay without undo"),
+        technique="deterministic simulation: seeded interleaving of analysis clients on one process image (one long history per forked world), first-occurrence (temporal) oracle on every observation + sampled pristine forked reference worlds, guided polluter x victim layer confirmed in pristine forks, heap write barrier for attribution and undo of listed sites",
+        text="Analysis clients (decode / build map / evaluate / re-evaluate / rebuild / compose / pickle / aborted builds) of several ISAs are interleaved on one process image by a seeded scheduler; every constant observation must equal the first observation of the same (ISA, block, state) in that process - on the old map and on a map rebuilt after the intervening history - and sampled first observations must equal a pristine forked process that executes only the dependency chain. A guided layer screens every spec for writes to pre-existing nodes and runs polluter x victim histories, each divergence confirmed in a pristine fork.",
+        note="compares constants only (loads stay symbolic); trusts fork() to give the post-import state; 16 listed write sites (signedness flag / armv7 decode mode on process-global objects) are undone at step end - a carve-out that masks changes at those sites only - and each is replayed without undo as a KNOWN-FINDING witness"),
     "C11": dict(engine="decsim", level="exploration", ref="3.4",
         technique="deterministic simulation with fault injection: seeded decode-call histories with truncated fetch windows, rejections and injected setup-function faults vs. a memoryless reference decoder and pristine forked processes; exhaustive 2-call histories over a per-ISA pool",
         text="Histories of decode calls (valid, prefixed, truncated at every length, undecodable, natural and injected setup failures incl. MemoryError, ARM/Thumb switches) on the shared disassembler object of every importable ISA; each call's outcome must equal that of a never-called copy of the decoder, sampled calls must equal a pristine forked process, returned bytes must be a prefix of the call's input. The pair layer enumerates all ordered pairs of a per-ISA pool as 2-call histories.",
@@ -28,9 +28,9 @@ CLAIMED = {
         text="For code regions of every ISA with a usable loader, linear sweep / block construction invariants are checked and then seeded subsets of blocks are inserted into cfg.graph in seeded arrival orders (with edges and re-insertions); after every insertion the support must be pairwise disjoint, contain every inserted instruction exactly once and carry a fall-through edge wherever a node was split.",
         note="reference block boundaries come from a 15-line independent computation over the swept instruction list; arrival order is the only adversary (no I/O seam)"),
     "C20": dict(engine="filesim", level="fault_enumeration", ref="3.7",
-        technique="deterministic simulation with storage fault injection: SimFS seam under read_program, enumerated truncations and header-field boundary overwrites plus seeded corruption sequences, deterministic call and allocation budgets",
+        technique="deterministic simulation with storage fault injection: SimFS seam under read_program, enumerated truncations and header-field boundary overwrites plus seeded corruption sequences (incl. grouped fields, checksum-valid HEX/SREC records), deterministic interpreter-event budget (sys.monitoring) and allocation bounds (tracemalloc peak, refused-allocation monitor)",
         text="read_program is run over an in-memory file system whose single file is a fault sequence applied to a sample, a synthesised image or random data: every prefix truncation and every located header/table field x boundary value is enumerated (thorough), flips/zeroed/duplicated/dropped blocks are seeded. It must return a recognised object or the raw fallback within a deterministic Python-call budget and allocation budget; any escaping exception is a violation.",
-        note="budgets (2e7 calls, 64 MiB + 64 x size) are the deciding bound, wall-clock watchdog only protects the harness; short reads/EIO are not injected because the property speaks of content only"),
+        note="budgets (2e7 interpreter events; 512 MiB + 64 x size traced peak; address-space allowance current + 768 MiB) are the deciding bounds, the wall-clock watchdog only protects the harness (a world that stalls twice at the same case below its budget is reported as class stall); short reads/EIO are not injected because the property speaks of content only; one open finding (PE VirtualSize padding, 2 signature keys)"),
 }
 
 NA = {
@@ -87,7 +87,7 @@ def main():
                      "kind_free_text": "deterministic simulation engine (seeded scheduler, explicit traces, forked worlds)"} for e, ps in sorted(engines.items())],
         "checks": checks,
         "not_applicable": sorted(na, key=lambda x: x["property_id"]),
-        "notes": "fix: commits in /repo are listed in known_findings.txt (fixed: lines). Exit codes: 0 held, 1 VIOLATION, 3 harness error.",
+        "notes": "fix: commits in /repo are listed in known_findings.txt (fixed: lines, each with a witness under replays/fixed/ that fails on the parent commit). Open findings: C09 T1-T3, C10 write sites, C20 PE padding (witnesses under replays/known/). Exit codes: 0 held, 1 VIOLATION, 3 harness error. ./check selftest determinism|mutants prove the simulator; seeded/ holds 14 independently written breaking changes, all caught.",
     }
     with open(os.path.join(here, "MANIFEST.json"), "w") as f:
         json.dump(m, f, indent=1)
